@@ -595,6 +595,9 @@ func probeConv(f []string) string {
 	if cfg["rt"] == "1" {
 		srv.ReadTimeout = time.Hour
 	}
+	if cfg["debug"] == "1" {
+		srv.Debug = io.Discard // the debug tee must not change anything a peer or a backend can observe
+	}
 	srv.ErrorLog = plog{log}
 
 	panicsRaised.Store(0)
@@ -606,6 +609,11 @@ func probeConv(f []string) string {
 		for _, s := range strings.Split(in[0], ",") {
 			if s == "TLS" {
 				hasTLS = true
+				continue
+			}
+			if s == "HSFAIL" {
+				// the next segment is what the peer sends instead of a ClientHello: the handshake fails, the conversation
+				// goes on in plaintext
 				continue
 			}
 			if s == "TO" {
